@@ -3,7 +3,8 @@ General fact about `groupBy` (toolz.groupby): on a list whose equal-key elements
 groups are the runs of the list. Used by C07 (slices of a sorted triangle) and C14 (rows of a cell are one group).
 -/
 import Bermuda.Model.Ops
-namespace Bermuda
+namespace Bermuda.GroupL
+open Bermuda
 variable {α κ : Type} [BEq κ] [LawfulBEq κ]
 
 def groupStep (key : α → κ) (acc : List (κ × List α)) (a : α) : List (κ × List α) :=
@@ -198,4 +199,4 @@ theorem groupBy_blocks (key : α → κ) (blocks : List (κ × List α))
   rfl
 
 
-end Bermuda
+end Bermuda.GroupL
